@@ -8,10 +8,19 @@
 //!   c19 txt <hex text> <hex pattern>         text cell -> Cell::get_formatted_value
 //!   c19 str <hex text> <hex pattern>         helper::number_format::to_formatted_string on an arbitrary string
 //!   c19 id <n> <hex value text>              numeric cell with built-in format id n -> get_formatted_value
+//!   c19 date <n> <f64 bits> <hex value text> the same with the value given by its bit pattern too (the model runs the date
+//!                                            conversion on the double); value text must be the Display text of the double.
+//!                                            Oracle: no panic; under a date/time id a serial beyond chrono's years shows
+//!                                            the General text of the number (fix e1ce7c1)
+//!   c19 edt <f64 bits>                       helper::date::excel_to_date_time_object_checked -> "Y M D h m s" | none;
+//!                                            oracle: the panicking public excel_to_date_time_object agrees (same value,
+//!                                            panics exactly where the checked one is None)
 //!
 //! The oracle (`reference`) is written from the property text: exact integer arithmetic (u128) on the
 //! decimal text of the value; it shares no code with the library or with the Lean model.
 use crate::common::*;
+use chrono::{Datelike, Timelike};
+use umya_spreadsheet::helper::date::{excel_to_date_time_object, excel_to_date_time_object_checked};
 use umya_spreadsheet::helper::number_format::to_formatted_string;
 use umya_spreadsheet::structs::Cell;
 
@@ -363,9 +372,122 @@ pub fn exec(out: &mut Out, line: &str) -> (String, bool) {
                 }
             }
         }
+        "date" if a.len() == 5 => {
+            let id: u32 = a[2].parse().unwrap();
+            let bits: u64 = a[3].parse().unwrap();
+            let text = String::from_utf8(unhex(a[4])).unwrap();
+            let num = f64::from_bits(bits);
+            if !num.is_finite() || num.to_string() != text {
+                return ("bad-op".into(), false);
+            }
+            if guard(|| {
+                let mut probe = Cell::default();
+                probe.get_style_mut().get_number_format_mut().set_number_format_id(id);
+            })
+            .is_err()
+            {
+                out.count(&format!("id.{:02}.not-in-table", id));
+                return ("noid".into(), false);
+            }
+            let mut c = cell_with(&text, Some(num));
+            c.get_style_mut().get_number_format_mut().set_number_format_id(id);
+            let code = c.get_style().get_number_format().map(|f| f.get_format_code().to_string()).unwrap_or_default();
+            let in_range = excel_to_date_time_object_checked(&num, None).is_some();
+            let date_id = DATE_IDS.contains(&id);
+            out.count(&format!(
+                "date.{}.{}",
+                if date_id { "date-id" } else { "other-id" },
+                if in_range { "in-chrono-range" } else { "beyond-chrono-range" }
+            ));
+            out.count(&format!("date.magnitude.1e{:03}", if num == 0.0 { 0 } else { num.abs().log10().floor() as i64 }));
+            if num < 0.0 {
+                out.count("date.negative");
+            }
+            let r = guard(|| c.get_formatted_value());
+            match r {
+                Ok(s) => {
+                    out.count(&format!("id.{:02}.ok", id));
+                    if date_id && !in_range && s != text {
+                        out.oracle_fail(
+                            Fail::new("date-out-of-range-not-general")
+                                .with("op", line)
+                                .with("id", id.to_string())
+                                .with("code", &code)
+                                .with("value", &text)
+                                .with("got", &s),
+                        );
+                    } else {
+                        out.oracle_ok();
+                    }
+                    (format!("{} ## {}", hex(&s), hex(&code)), true)
+                }
+                Err(_) => {
+                    out.count(&format!("id.{:02}.panic", id));
+                    out.oracle_fail(
+                        Fail::new("builtin-panic")
+                            .with("op", line)
+                            .with("id", id.to_string())
+                            .with("code", &code)
+                            .with("value", &text)
+                            .with("magnitude", if in_range { "ordinary" } else { "serial-beyond-chrono-range" }),
+                    );
+                    ("panic".into(), false)
+                }
+            }
+        }
+        "edt" if a.len() == 3 => {
+            let bits: u64 = a[2].parse().unwrap();
+            let num = f64::from_bits(bits);
+            let fields = |t: &chrono::NaiveDateTime| {
+                format!("{} {} {} {} {} {}", t.year(), t.month(), t.day(), t.hour(), t.minute(), t.second())
+            };
+            let checked = guard(|| excel_to_date_time_object_checked(&num, None).map(|t| fields(&t)));
+            let public = guard(|| fields(&excel_to_date_time_object(&num, None)));
+            match (&checked, &public) {
+                (Ok(Some(a)), Ok(b)) if a == b => {
+                    out.count("edt.some");
+                    out.oracle_ok()
+                }
+                (Ok(None), Err(_)) => {
+                    out.count("edt.none");
+                    out.oracle_ok()
+                }
+                _ => out.oracle_fail(
+                    Fail::new("checked-public-disagree")
+                        .with("op", line)
+                        .with("value", num.to_string())
+                        .with("checked", format!("{:?}", checked))
+                        .with("public", format!("{:?}", public)),
+                ),
+            }
+            match checked {
+                Ok(Some(s)) => (s, true),
+                Ok(None) => ("none".into(), true),
+                Err(_) => ("panic".into(), false),
+            }
+        }
         _ => ("bad-op".into(), false),
     }
 }
+
+/// built-in ids whose code is a date/time code (goes through format_as_date)
+const DATE_IDS: &[u32] = &[
+    14, 15, 16, 17, 18, 19, 20, 21, 22, 27, 28, 29, 30, 31, 32, 33, 34, 35, 36, 45, 46, 47, 50, 51, 52, 53, 54, 55, 56, 57, 58,
+];
+
+/// serials at and around the edges of what chrono can hold (last day: serial 95051805 = +262142-12-31 counted from
+/// 1899-12-30; first day: -96465292 = -262143-01-01 counted from 1970-01-01, the base for values below 1), around
+/// TimeDelta's bound (i64::MAX / 1000 seconds = 106751991167.3 days), around i64 (the `as i64` casts saturate),
+/// and the largest / smallest doubles
+const SERIAL_EDGES: &[f64] = &[
+    95051804.0, 95051804.5, 95051805.0, 95051805.25, 95051805.99998, 95051805.999995, 95051806.0, 95051807.0, 9.5e7, 9.6e7,
+    1e8, 123456789.125, 1e9, 1e10, 106751991167.0, 106751991168.0, 1e12, 1e15, 9007199254740992.0, 1e16, 9.2e18,
+    9223372036854775807.0, 1e19, 1e20, 1e22, 1e100, 1e300, f64::MAX, -96465291.0, -96465291.5, -96465292.0, -96465292.25,
+    -96465293.0, -96465294.0, -9.6e7, -9.7e7, -1e8, -123456789.125, -1e9, -1e10, -106751991167.0, -106751991168.0,
+    -1e12, -1e15, -1e16, -9.2e18, -9223372036854775808.0, -1e19, -1e20, -1e22, -1e100, -1e300, f64::MIN, 2958465.0,
+    2958466.0, 3e6, 5e6, 1e7, 5e7, -1.0, -0.5, -2958465.0, -1e7, -5e7, 0.0, 0.999995, 59.0, 60.0, 61.0, 45435.25,
+    f64::MIN_POSITIVE, 5e-324, -5e-324, 1e-300,
+];
 
 // ---------------------------------------------------------------------------------------------
 // generators
@@ -584,6 +706,33 @@ pub fn gen(tier: Tier, seed: u64) -> Vec<String> {
     for id in 0..=49u32 {
         for val in &idvals {
             v.push(format!("c19 id {} {}", id, hex(val)));
+        }
+    }
+    // 7. date/time codes and serials far outside the calendar: every id 0..=70 x the edge serials, then random
+    //    magnitudes 1e0..1e308 of both signs x every id; the conversion itself on all of them
+    let mut serials: Vec<f64> = SERIAL_EDGES.to_vec();
+    let n_rand = if thorough { 600 } else { 60 };
+    for i in 0..n_rand {
+        let e = rng.range(0, 308) as i32;
+        let m = 1.0 + rng.f64_unit() * 9.0;
+        let m = if i % 3 == 0 { m.floor() } else { m };
+        let x = m * 10f64.powi(e);
+        if x.is_finite() {
+            serials.push(if rng.chance(1, 2) { -x } else { x });
+        }
+    }
+    // day-exact neighbours of the two calendar edges with random times of day
+    for _ in 0..(if thorough { 400 } else { 40 }) {
+        let edge = if rng.chance(1, 2) { 95051805.0 } else { -96465292.0 };
+        let d = rng.range(0, 6) as f64 - 3.0;
+        serials.push(edge + d + rng.f64_unit());
+    }
+    for x in &serials {
+        v.push(format!("c19 edt {}", x.to_bits()));
+    }
+    for id in 0..=70u32 {
+        for x in &serials {
+            v.push(format!("c19 date {} {} {}", id, x.to_bits(), hex(&x.to_string())));
         }
     }
     v
